@@ -95,7 +95,13 @@ impl Xot {
             return Ok(());
         }
         self.remove_consolidate_text_nodes(self.previous_sibling(child), self.next_sibling(child));
-        if self.add_consolidate_text_nodes(child, self.last_child(parent), None) {
+        // the child itself can have become the last child (the text nodes
+        // around it were merged): then it joins the node before it
+        let last_child = match self.last_child(parent) {
+            Some(last_child) if last_child == child => self.previous_sibling(child),
+            last_child => last_child,
+        };
+        if self.add_consolidate_text_nodes(child, last_child, None) {
             return Ok(());
         }
         parent.get().checked_append(child.get(), self.arena_mut())?;
